@@ -149,8 +149,33 @@ def sibling_names(root):
     return out
 
 
+def real_roots():
+    """roots that exist on disk: a directory, a regular FILE (a caller that passes __file__), a directory with a sibling that
+    shares its name's characters - the function works on names, what is on the disk must not change its verdict"""
+    import tempfile
+    base = tempfile.mkdtemp(prefix="c17roots_", dir=os.environ.get("VERIF_SCRATCH", "/var/tmp"))
+    os.makedirs(os.path.join(base, "site", "img"))
+    os.makedirs(os.path.join(base, "site2"))
+    for f in ("site/index.html", "site/secret.txt", "site2/secret.txt", "secret.txt"):
+        with open(os.path.join(base, f), "w") as fh:
+            fh.write("x")
+    return base, [os.path.join(base, "site"), os.path.join(base, "site", "index.html"), os.path.join(base, "site") + "/", os.path.join(base, "site", "img")]
+
+
 def run_random(cfg, mon):
     r = rng("C17", cfg["seed"], cfg["shard"])
+    import shutil
+    base, rroots = real_roots()
+    try:
+        names = ["secret.txt", "../secret.txt", "index.html", "img", "img/../secret.txt", "../site2/secret.txt", "/secret.txt", "", ".", "..",
+                 os.path.join(base, "secret.txt"), os.path.join(base, "site2", "secret.txt"), "a/b", "x"]
+        for root in rroots:
+            for name in names + sibling_names(root)[:40]:
+                mon.check(root, name, "root-exists-on-disk")
+                mon.counters.inc("names_against_existing_roots")
+                mon.distinct.add(h64("real", os.path.relpath(root, base), name.replace(base, "<base>")))
+    finally:
+        shutil.rmtree(base, ignore_errors=True)
     for root in ROOTS:
         for name in sibling_names(root):
             mon.check(root, name, "sibling-prefix")
@@ -237,7 +262,8 @@ def run_shard(cfg):
 def finish(tier, seed, results):
     m = merge(results)
     inconclusive = []
-    need(m["counters"], ["calls", "refused", "returned_inside", "enum_names", "router_names", "valid_names_returned", "sibling_prefix_names"], inconclusive)
+    need(m["counters"], ["calls", "refused", "returned_inside", "enum_names", "router_names", "valid_names_returned", "sibling_prefix_names",
+                         "names_against_existing_roots"], inconclusive)
     cov = {
         "evaluations": m["evaluations"],
         "distinct_nontrivial": m["distinct_nontrivial"],
